@@ -630,6 +630,30 @@ func init() {
 		te.stopped = true
 		return invDone, r.tt.Bool(was)
 	}
+	stubs["runtime.Gosched"] = func(c *intrCtx) (invResult, Value) {
+		if !c.r.syncPoint(c.t, &pendOp{kind: "Gosched"}) {
+			return invYield, nil
+		}
+		return invDone, nil
+	}
+	stubs["time.Sleep"] = stubs["runtime.Gosched"] // time is abstract: sleeping is just a scheduling point
+	stubs["time.After"] = func(c *intrCtx) (invResult, Value) {
+		r := c.r
+		r.nextObj++
+		ch := &ChanObj{typ: under(c.fn.Signature.Results().At(0).Type()).(*types.Chan), cap: 1, id: r.nextObj}
+		r.timers = append(r.timers, &timerEnv{ch: ch, id: len(r.timers)})
+		r.multi = true
+		return invDone, ch
+	}
+	stubs["time.Now"] = func(c *intrCtx) (invResult, Value) {
+		return invDone, c.r.zero(c.fn.Signature.Results().At(0).Type())
+	}
+	stubs["time.Since"] = func(c *intrCtx) (invResult, Value) {
+		// an arbitrary non-negative duration
+		d := c.r.freshInput("time.Since", BV(64), "int64")
+		c.r.assume(c.r.tt.CmpBV(OpSle, c.r.tt.Int(64, 0), d))
+		return invDone, d
+	}
 	// ---- reflection-based sort entry points: run the real algorithm with an engine swapper ----
 	stubs["sort.SliceStable"] = func(c *intrCtx) (invResult, Value) {
 		return c.r.sortSliceVia(c, "stable_func", false)
